@@ -309,8 +309,10 @@ class Solver:
 
             display_iterate = display.should_display()
 
+            dt = 1.0 / lamb
+
             step_result = self._compute_step(
-                controller, iterate, self.rho, 1.0 / lamb, display_iterate, timer
+                controller, iterate, self.rho, dt, display_iterate, timer
             )
 
             x = iterate.x
@@ -370,7 +372,7 @@ class Solver:
 
                 if path is not None:
                     path.append(next_iterate.z)
-                    path_times.append(path_times[-1] + (1.0 / lamb))
+                    path_times.append(path_times[-1] + dt)
 
                 iterate = next_iterate
 
